@@ -68,7 +68,7 @@ def scope(model, family: str, schema_id: str, size: int, **over) -> dict:
     elif family == "astral":
         s = {
             "types": ["doc", "paragraph", "code_block", "text"],
-            "texts": ["a", "\U0001F600", "\U0001F601", "\n", "a\U0001F600"],
+            "texts": ["a", "\U0001F600", "\U0001F601", "\n", "a\U0001F600", "\U0001F600a", "\U0001F600\U0001F601"],
         }
     elif family == "iso":
         s = {
